@@ -440,9 +440,7 @@ func runOktaProbe(rep *vh.Report, env vh.Env, i int) {
 	}
 	rep.Eval()
 	kc.Trace = d.getTrace()
-	before := rep.NViolations()
 	desc := judgeOkta(rep, stream, i, kc, d, qs, tpl.class)
-	_ = before
 	// did the second question reach the directory? (a shared entry shows as "no directory call")
 	shared := strings.Contains(desc, "foreign")
 	if setKey(tpl.g1) == setKey(tpl.g2) && tpl.u1 == tpl.u2 {
